@@ -5,7 +5,7 @@ import copy
 
 import soupsieve as sv
 
-from engine import choose, common, refmatch as R, selast as S, trees
+from engine import choose, common, ref_html, refmatch as R, selast as S, trees  # noqa: F401 (ref_html registers EXT)
 
 ID = 'C12'
 BUDGET = {'quick': 50, 'thorough': 900}
@@ -153,6 +153,11 @@ def describe(ch, el, nsmap, depth):
                            'flag': None})
     if depth > 0 and ch.p(0.3):
         c['ps'].append(None)   # placeholder filled by caller
+    if ch.p(0.12):
+        # an HTML-only pseudo-class next to namespace forms: it swaps in soupsieve's private prefix map while it runs
+        st = {'p': ch.pick(('checked', 'disabled', 'required', 'any-link', 'link', 'enabled', 'optional', 'read-only'))}
+        c['ps'].append({'p': 'not', 'args': [[{'comb': None, 'c': {'tag': None, 'ids': [], 'classes': [], 'attrs': [], 'ps': [st]}}]]}
+                       if ch.p(0.7) else st)
     return c
 
 
